@@ -52,7 +52,7 @@ def project(comb_pkg, deps, dep_pkgs):
         return ":" + k if dict(zip(deps, dep_pkgs))[k] == comb_pkg else ids[k]
 
     dl = ", ".join('"%s"' % ref(k) for k in deps)
-    add(comb_pkg, 'combine(name="comb", deps=[%s])\nrun_command(name="sib", run="./sib.sh", deps=[%s])\ngroup(name="top", deps=[":comb", ":sib"])\n' % (dl, dl))
+    add(comb_pkg, 'combine(name="comb", deps=[%s])\nrun_command(name="sib", run="./sib.sh", deps=[%s])\ngroup(name="top", deps=[":comb", ":sib", %s])\n' % (dl, dl, dl))
     files = {(pk + "/" if pk else "") + "COND": "".join(t) for pk, t in by_pkg.items()}
     return files, ids
 
